@@ -6,7 +6,7 @@ From FT.lib Require Import Num Arr ArrLemmas Lower NumArr.
 From FT.gen Require Import Common Fteik2d Fteik3d.
 From Coq Require Import Reals.
 From FT.proofs Require Import Sweep2dProofs Sweep3dProofs Solve2dProofs Solve3dProofs.
-From FT.proofs Require OperatorsR NonNeg2d Pos2d NonNeg3d.
+From FT.proofs Require OperatorsR NonNeg2d Pos2d NonNeg3d Pos3d.
 Import ListNotations.
 Open Scope Z_scope.
 
@@ -265,6 +265,130 @@ Theorem C03_eight_point_guard_noop_cubic :
        NonNeg3d.node_value_sp false tt slow d d d i j k sgnvz sgnvx sgnvy sgntz sgntx sgnty nz nx ny.
 Proof. exact @NonNeg3d.t3d_guard_noop_cubic. Qed.
 
+(* 3D, positive slowness: a node coinciding with the source (no snapping in 3D: all three coordinates integral in grid units) holds 0 *)
+Theorem C03_solve3d_zero_at_source :
+  forall (slow : arr R) (dz dx dy zsrc xsrc ysrc : R) (nsweep : Z) (grad : bool) (tt ttgrad : arr R) (vzero : R),
+       (0 < dz)%R ->
+       (0 < dx)%R ->
+       (0 < dy)%R ->
+       wf slow ->
+       1 <= dim slow 0 ->
+       1 <= dim slow 1 ->
+       1 <= dim slow 2 ->
+       shape slow = [dim slow 0; dim slow 1; dim slow 2] ->
+       (forall i j k : Z,
+        0 <= i < dim slow 0 -> 0 <= j < dim slow 1 -> 0 <= k < dim slow 2 -> (0 < get 0 slow [i; j; k])%R) ->
+       fteik3d slow dz dx dy zsrc xsrc ysrc nsweep grad = Ok (tt, ttgrad, vzero) ->
+       forall i j k : Z,
+       0 <= i <= dim slow 0 ->
+       0 <= j <= dim slow 1 ->
+       0 <= k <= dim slow 2 ->
+       IZR i = (zsrc / dz)%R -> IZR j = (xsrc / dx)%R -> IZR k = (ysrc / dy)%R -> get 0%R tt [i; j; k] = 0%R.
+Proof. exact @Pos3d.fteik3d_zero_at_source. Qed.
+
+(* a source that is not on a node: every returned traveltime is > 0 *)
+Theorem C03_solve3d_positive_off_node :
+  forall (slow : arr R) (dz dx dy zsrc xsrc ysrc : R) (nsweep : Z) (grad : bool) (tt ttgrad : arr R) (vzero : R),
+       (0 < dz)%R ->
+       (0 < dx)%R ->
+       (0 < dy)%R ->
+       wf slow ->
+       1 <= dim slow 0 ->
+       1 <= dim slow 1 ->
+       1 <= dim slow 2 ->
+       shape slow = [dim slow 0; dim slow 1; dim slow 2] ->
+       (forall i j k : Z,
+        0 <= i < dim slow 0 -> 0 <= j < dim slow 1 -> 0 <= k < dim slow 2 -> (0 < get 0 slow [i; j; k])%R) ->
+       fteik3d slow dz dx dy zsrc xsrc ysrc nsweep grad = Ok (tt, ttgrad, vzero) ->
+       ~ (exists kz kx ky : Z, (zsrc / dz)%R = IZR kz /\ (xsrc / dx)%R = IZR kx /\ (ysrc / dy)%R = IZR ky) ->
+       forall i j k : Z,
+       0 <= i <= dim slow 0 -> 0 <= j <= dim slow 1 -> 0 <= k <= dim slow 2 -> (0 < get 0 tt [i; j; k])%R.
+Proof. exact @Pos3d.fteik3d_pos_off_node. Qed.
+
+(* full statement available for 3D: either 0 occurs only at the source node, or one of the <= 8 nodes whose cube-diagonal neighbour is the source holds 0 (the accepted 8-point candidate is only >= its diagonal corner, and 0 < 0 does not trip the guard) *)
+Theorem C03_solve3d_zero_dichotomy :
+  forall (slow : arr R) (dz dx dy zsrc xsrc ysrc : R) (nsweep : Z) (grad : bool) (tt ttgrad : arr R) (vzero : R),
+       (0 < dz)%R ->
+       (0 < dx)%R ->
+       (0 < dy)%R ->
+       wf slow ->
+       1 <= dim slow 0 ->
+       1 <= dim slow 1 ->
+       1 <= dim slow 2 ->
+       shape slow = [dim slow 0; dim slow 1; dim slow 2] ->
+       (forall i j k : Z,
+        0 <= i < dim slow 0 -> 0 <= j < dim slow 1 -> 0 <= k < dim slow 2 -> (0 < get 0 slow [i; j; k])%R) ->
+       fteik3d slow dz dx dy zsrc xsrc ysrc nsweep grad = Ok (tt, ttgrad, vzero) ->
+       (forall i j k : Z,
+        0 <= i <= dim slow 0 ->
+        0 <= j <= dim slow 1 ->
+        0 <= k <= dim slow 2 ->
+        get 0%R tt [i; j; k] = 0%R -> IZR i = (zsrc / dz)%R /\ IZR j = (xsrc / dx)%R /\ IZR k = (ysrc / dy)%R) \/
+       (exists i j k a b c : Z,
+          0 <= i <= dim slow 0 /\
+          0 <= j <= dim slow 1 /\
+          0 <= k <= dim slow 2 /\
+          Pos3d.pm1 a /\
+          Pos3d.pm1 b /\
+          Pos3d.pm1 c /\
+          IZR (i - a) = (zsrc / dz)%R /\
+          IZR (j - b) = (xsrc / dx)%R /\ IZR (k - c) = (ysrc / dy)%R /\ get 0%R tt [i; j; k] = 0%R).
+Proof. exact @Pos3d.fteik3d_zero_dichotomy. Qed.
+
+(* PARTIAL: zero only at the source, under the hypothesis (on the returned grid) that none of those diagonal nodes holds 0; the hypothesis is also necessary (fteik3d_zero_only_at_source_iff_diag) *)
+Theorem C03_solve3d_zero_only_at_source_partial :
+  forall (slow : arr R) (dz dx dy zsrc xsrc ysrc : R) (nsweep : Z) (grad : bool) (tt ttgrad : arr R) (vzero : R),
+       (0 < dz)%R ->
+       (0 < dx)%R ->
+       (0 < dy)%R ->
+       wf slow ->
+       1 <= dim slow 0 ->
+       1 <= dim slow 1 ->
+       1 <= dim slow 2 ->
+       shape slow = [dim slow 0; dim slow 1; dim slow 2] ->
+       (forall i j k : Z,
+        0 <= i < dim slow 0 -> 0 <= j < dim slow 1 -> 0 <= k < dim slow 2 -> (0 < get 0 slow [i; j; k])%R) ->
+       fteik3d slow dz dx dy zsrc xsrc ysrc nsweep grad = Ok (tt, ttgrad, vzero) ->
+       (forall i j k a b c : Z,
+        0 <= i <= dim slow 0 ->
+        0 <= j <= dim slow 1 ->
+        0 <= k <= dim slow 2 ->
+        Pos3d.pm1 a ->
+        Pos3d.pm1 b ->
+        Pos3d.pm1 c ->
+        IZR (i - a) = (zsrc / dz)%R ->
+        IZR (j - b) = (xsrc / dx)%R -> IZR (k - c) = (ysrc / dy)%R -> get 0%R tt [i; j; k] <> 0%R) ->
+       forall i j k : Z,
+       0 <= i <= dim slow 0 ->
+       0 <= j <= dim slow 1 ->
+       0 <= k <= dim slow 2 ->
+       get 0%R tt [i; j; k] = 0%R -> IZR i = (zsrc / dz)%R /\ IZR j = (xsrc / dx)%R /\ IZR k = (ysrc / dy)%R.
+Proof. exact @Pos3d.fteik3d_zero_only_at_source_partial. Qed.
+
+(* the unconditional 3D clause is REFUTED in exact arithmetic by a complete solve - slowness 2e5 / 9e5 on 1x2x1 cells of (1,4,1): times reach the placeholder 1e5 (known finding F11), an unvisited node passes for a time and the 8-point operator cancels to exactly 0 at node (1,0,1); binary64 kernel call reproduces it (Pos3d.Binary64), the public API does not (1/(1/2e5) is not 2e5) *)
+Theorem C03_solve3d_zero_only_at_source_refuted :
+  ((0 < 1)%R /\
+        (0 < 4)%R /\
+        wf Pos3d.cxs /\
+        1 <= dim Pos3d.cxs 0 /\
+        1 <= dim Pos3d.cxs 1 /\
+        1 <= dim Pos3d.cxs 2 /\
+        shape Pos3d.cxs = [dim Pos3d.cxs 0; dim Pos3d.cxs 1; dim Pos3d.cxs 2] /\
+        (forall i j k : Z,
+         0 <= i < dim Pos3d.cxs 0 ->
+         0 <= j < dim Pos3d.cxs 1 -> 0 <= k < dim Pos3d.cxs 2 -> (0 < get 0 Pos3d.cxs [i; j; k])%R)) /\
+       (forall (nsweep : Z) (grad : bool),
+        1 <= nsweep ->
+        exists (tt G : arr R) (v : R),
+          fteik3d Pos3d.cxs 1%R 4%R 1%R 0%R 4%R 0%R nsweep grad = Ok (tt, G, v) /\
+          0 <= 1 <= dim Pos3d.cxs 0 /\
+          0 <= 0 <= dim Pos3d.cxs 1 /\
+          0 <= 1 <= dim Pos3d.cxs 2 /\
+          get 0%R tt [1; 0; 1] = 0%R /\
+          ~ (1%R = (0 / 1)%R /\ 0%R = (4 / 4)%R /\ 1%R = (0 / 1)%R) /\
+          (0%R = (0 / 1)%R /\ 1%R = (4 / 4)%R /\ 0%R = (0 / 1)%R) /\ get 0%R tt [0; 1; 0] = 0%R).
+Proof. exact @Pos3d.fteik3d_zero_only_at_source_refuted. Qed.
+
 Print Assumptions C03_solve2d_raises_iff_source_outside.
 Print Assumptions C03_solve3d_raises_iff_source_outside.
 Print Assumptions C03_initial_grid_shape_2d.
@@ -286,3 +410,8 @@ Print Assumptions C03_solve3d_nonneg.
 Print Assumptions C03_eight_point_unguarded_negative_iff_noncubic.
 Print Assumptions C03_node_update_unguarded_refuted.
 Print Assumptions C03_eight_point_guard_noop_cubic.
+Print Assumptions C03_solve3d_zero_at_source.
+Print Assumptions C03_solve3d_positive_off_node.
+Print Assumptions C03_solve3d_zero_dichotomy.
+Print Assumptions C03_solve3d_zero_only_at_source_partial.
+Print Assumptions C03_solve3d_zero_only_at_source_refuted.
